@@ -29,6 +29,10 @@ pub struct Bad {
     /// (`/* <block …> */ a, b /* </block> */`): its content has no second physical line
     #[serde(default)]
     pub inline: bool,
+    /// a healthy block with a (nil-returning) check-lua script in the same file: the run then takes the path
+    /// that joins synchronous and asynchronous validators
+    #[serde(default)]
+    pub with_async: bool,
 }
 
 fn a(k: &str, v: &str) -> (String, Option<String>) {
@@ -49,6 +53,7 @@ fn table() -> Vec<Bad> {
             mode: 0,
             special: special.into(),
             inline: false,
+            with_async: false,
         })
     };
     for d in ["up", "ascending", "asc,desc", "1", "asc desc", "descending", "sorted"] {
@@ -137,6 +142,20 @@ pub fn enumerated(thorough: bool) -> Vec<Bad> {
                 }
             }
         }
+        // the same malformation next to a healthy scripted block (synchronous and asynchronous validators in one run)
+        if base.special.is_empty() {
+            for (k, mode) in [(0u8, 0u8), (2, 1), (1, 2)] {
+                if base.kind == "affects-no-colon" && mode != 2 {
+                    continue;
+                }
+                let mut b = base.clone();
+                b.with_async = true;
+                b.position = k;
+                b.neighbours = k % 2;
+                b.mode = mode;
+                out.push(b);
+            }
+        }
         // the same malformation on a block written on one source line (kinds whose verdict does not depend
         // on the content having several lines)
         let k = base.kind.as_str();
@@ -179,6 +198,9 @@ fn run_tree(b: &Bad, control: bool, probe: &Probe) -> (String, Outcome) {
     }
     let subject = RuleBlock { attrs, lines: b.lines.clone(), indent: 0 };
     let mut blocks = vec![healthy_block("h1"), healthy_block("h2")];
+    if b.with_async {
+        blocks.push(RuleBlock { attrs: vec![a("name", "scripted"), a("check-lua", "nil.lua")], lines: vec!["a".into()], indent: 0 });
+    }
     let subject_file = if b.inline { "m_subject.js" } else { "m_subject.sh" };
     let mut r = if b.inline {
         render_batch(Host::Js, &blocks)
@@ -283,7 +305,7 @@ pub fn check(b: &Bad, probe: &Probe) -> Verdict {
 }
 
 pub fn run(run: &mut Run) {
-    run.rule = "enumerated: a table of malformations judged invalid by the statement (sort direction, sort format, non-numeric keys with >= 2 keys (5 hand-picked blocks and every 2- and 3-line block over {1, 2, x, n/a, blank} with a non-numeric key, incl. identical neighbours), 7 uncompilable regexes x 5 regex-bearing attributes on blocks with content, 15 bad line-count expressions, colon-less affects on a modified block, unknown severity on a violating block, empty/missing/directory/invalid-UTF-8/empty-file Lua scripts, empty AI condition, missing/empty API key) x placement (first/middle/last block; healthy file before/after/both; other satisfied rules on the block) x mode (scan with paths, interactive scan, new-file diff); the sort-direction / sort-format / regex / line-count / Lua-script malformations also on a block written on ONE source line of a JavaScript file (content without a second physical line); each with a control run (malformation repaired) that must be healthy. Non-trivial = the malformed block is not alone/first. Quick runs a covering subset of the placement grid, thorough the full product.".into();
+    run.rule = "enumerated: a table of malformations judged invalid by the statement (sort direction, sort format, non-numeric keys with >= 2 keys (5 hand-picked blocks and every 2- and 3-line block over {1, 2, x, n/a, blank} with a non-numeric key, incl. identical neighbours), 7 uncompilable regexes x 5 regex-bearing attributes on blocks with content, 15 bad line-count expressions, colon-less affects on a modified block, unknown severity on a violating block, empty/missing/directory/invalid-UTF-8/empty-file Lua scripts, empty AI condition, missing/empty API key) x placement (first/middle/last block; healthy file before/after/both; other satisfied rules on the block) x mode (scan with paths, interactive scan, new-file diff); the sort-direction / sort-format / regex / line-count / Lua-script malformations also on a block written on ONE source line of a JavaScript file (content without a second physical line); every script-free malformation also next to a healthy check-lua block (synchronous and asynchronous validators joined in one run); each with a control run (malformation repaired) that must be healthy. Non-trivial = the malformed block is not alone/first. Quick runs a covering subset of the placement grid, thorough the full product.".into();
     run.assumptions = vec!["valid spellings are never expected to fail: every table entry is invalid by the statement's own wording".into()];
     let thorough = run.tier == crate::engine::Tier::Thorough;
     let items = enumerated(thorough);
